@@ -639,7 +639,7 @@ mutant("M109-blockview-nominal-chunks", ["C12"], "META-1", ("cubed/core/indexing
 
 
 # ---------------------------------------------------------------- whole-tree benign transforms
-ALL_PROPS = [f"C{i:02d}" for i in range(1, 21) if i != 14]
+ALL_PROPS = [f"C{i:02d}" for i in range(1, 21)]
 CORPUS.append({"id": "B-unparse-roundtrip-every-module", "kind": "benign", "props": ALL_PROPS, "rule": None, "edits": [], "transform": "unparse-all"})
 CORPUS.append({"id": "B-shift-all-line-numbers", "kind": "benign", "props": ALL_PROPS, "rule": None, "edits": [], "transform": "shift-lines"})
 CORPUS.append({"id": "B-rename-every-local-suffix", "kind": "benign", "props": ALL_PROPS, "rule": None, "edits": [], "transform": "rename-locals"})
@@ -959,3 +959,46 @@ mutant(
     "LAZY-IMPLICIT-1",
     (MANIPF, "    if not isinstance(repeats, int):\n        raise ValueError(\"repeat only supports integral values for `repeats`\")\n", "    import operator\n\n    repeats = operator.index(repeats)\n"),
 )
+
+# ---------------------------------------------------------------- C14 (rechunk plumbing)
+RECH = "cubed/core/rechunk.py"
+ALGO = "cubed/vendor/rechunker/algorithm.py"
+_LAST = "        target_chunks_ = target_chunks if last_stage else write_chunks\n"
+mutant("M14a-last-stage-writes-consolidated", ["C14"], "RECHUNK-PLAN-1", (OPS, _LAST, "        target_chunks_ = write_chunks\n"))
+mutant("M14b-last-stage-inverted", ["C14"], "RECHUNK-PLAN-1", (OPS, _LAST, "        target_chunks_ = write_chunks if last_stage else target_chunks\n"))
+mutant("M14c-last-test-off-by-one", ["C14"], "RECHUNK-PLAN-1", (OPS, "        last_stage = i == len(stages) - 1\n", "        last_stage = i == len(stages)\n"))
+mutant("M14d-closing-copy-to-write-chunks", ["C14"], "RECHUNK-PLAN-1", (OPS, "                yield write_chunks, target_chunks_\n", "                yield write_chunks, write_chunks\n"))
+mutant("M14e-closing-copy-dropped", ["C14"], "RECHUNK-PLAN-1", (OPS, "            if last_stage:\n                yield write_chunks, target_chunks_\n", "            if not last_stage:\n                yield write_chunks, target_chunks_\n"))
+mutant("M14f-source-is-target", ["C14"], "RECHUNK-PLAN-1", (OPS, "        source_chunks=source_chunks,\n        target_chunks=target_chunks,\n        itemsize=itemsize(x.dtype),", "        source_chunks=target_chunks,\n        target_chunks=target_chunks,\n        itemsize=itemsize(x.dtype),"))
+mutant("M14g-budget-without-reserved", ["C14"], "RECHUNK-PLAN-1", (OPS, "    rechunker_max_mem = (spec.allowed_mem - spec.reserved_mem) // total_copies\n", "    rechunker_max_mem = spec.allowed_mem // total_copies\n"))
+mutant("M14h-budget-without-write-copies", ["C14"], "RECHUNK-PLAN-1", (OPS, "    total_copies = 1 + buffer_copies.read + 1 + 1 + buffer_copies.write\n", "    total_copies = 1 + buffer_copies.read + 1 + 1\n"))
+mutant("M14i-planners-exchanged", ["C14"], "RECHUNK-PLAN-1", (OPS, "        multistage_rechunking_plan\n        if allow_irregular\n        else multistage_regular_rechunking_plan\n", "        multistage_regular_rechunking_plan\n        if allow_irregular\n        else multistage_rechunking_plan\n"))
+mutant("M14j-always-irregular-planner", ["C14"], "RECHUNK-PLAN-1", (OPS, "    plan_func = (\n        multistage_rechunking_plan\n        if allow_irregular\n        else multistage_regular_rechunking_plan\n    )\n", "    plan_func = multistage_rechunking_plan\n"))
+mutant("M14k-stage-roles-int-as-copy", ["C14"], "RECHUNK-PLAN-1", (OPS, "            yield read_chunks, int_chunks\n", "            yield int_chunks, read_chunks\n"))
+mutant("M14l-min-mem-is-max-mem", ["C14"], "RECHUNK-PLAN-1", (OPS, "        min_mem=min_mem,\n        max_mem=rechunker_max_mem,\n    )\n\n    for i, stage", "        min_mem=rechunker_max_mem,\n        max_mem=rechunker_max_mem,\n    )\n\n    for i, stage"))
+mutant("M14m-plan-report-ignores-allow-irregular", ["C14"], "RECHUNK-CHAIN-1", (RECH, "    for copy_chunks, target_chunks in _rechunk_plan(\n        x, chunks, min_mem=min_mem, allow_irregular=allow_irregular\n    ):\n        copy_ops.append", "    for copy_chunks, target_chunks in _rechunk_plan(x, chunks, min_mem=min_mem):\n        copy_ops.append"))
+mutant("M14n-rechunk-ignores-min-mem", ["C14"], "RECHUNK-CHAIN-1", (OPS, "    for copy_chunks, target_chunks in _rechunk_plan(\n        x, chunks, min_mem=min_mem, allow_irregular=allow_irregular\n    ):\n        out = _rechunk", "    for copy_chunks, target_chunks in _rechunk_plan(\n        x, chunks, allow_irregular=allow_irregular\n    ):\n        out = _rechunk"))
+mutant("M14o-pair-roles-exchanged", ["C14"], "RECHUNK-CHAIN-1", (OPS, "        out = _rechunk(out, copy_chunks, target_chunks, allow_irregular=allow_irregular)\n", "        out = _rechunk(out, target_chunks, copy_chunks, allow_irregular=allow_irregular)\n"))
+mutant("M14p-regular-target-from-copy-grid", ["C14"], "RECHUNK-CHAIN-1", (OPS, "    else:\n        target_chunks = normalize_chunks(target_chunks, x.shape, dtype=x.dtype)\n        target_chunks = to_chunksize(target_chunks)\n", "    else:\n        target_chunks = normalize_chunks(copy_chunks, x.shape, dtype=x.dtype)\n        target_chunks = to_chunksize(target_chunks)\n"))
+mutant("M14q-stage-search-unbounded", ["C14"], "RECHUNK-TERM-1", (RECH, "    for stage_count in range(1, MAX_STAGES):\n", "    import itertools\n\n    for stage_count in itertools.count(1):\n"))
+mutant("M14r-multspace-guard-not-strict", ["C14"], "RECHUNK-TERM-1", (RECH, "    if start > stop:\n        return list(reversed(multspace(stop, start, num)))\n", "    if start >= stop:\n        return list(reversed(multspace(stop, start, num)))\n"))
+mutant("M14s-multspace-recursion-not-exchanged", ["C14"], "RECHUNK-TERM-1", (RECH, "        return list(reversed(multspace(stop, start, num)))\n", "        return list(reversed(multspace(start, stop, num)))\n"))
+mutant("M14t-axes-list-grown-while-iterated", ["C14"], "RECHUNK-TERM-1", (ALGO, "        assert headroom >= 1\n", "        assert headroom >= 1\n        if headroom > 2 and n_axis not in axes[:1]:\n            axes.append(n_axis)\n"))
+mutant(
+    "M14u-stage-search-while-true-no-progress",
+    ["C14"],
+    "RECHUNK-TERM-1",
+    (ALGO, "    for stage_count in range(1, MAX_STAGES):\n\n        stage_chunks = calculate_stage_chunks(read_chunks, write_chunks, stage_count)\n", "    stage_count = 1\n    while stage_count < MAX_STAGES:\n\n        stage_chunks = calculate_stage_chunks(read_chunks, write_chunks, stage_count)\n"),
+)
+benign("B14a-last-test-other-arrangement", ["C14"], (OPS, "        last_stage = i == len(stages) - 1\n", "        last_stage = i + 1 == len(stages)\n"))
+benign("B14b-last-target-if-statement", ["C14"], (OPS, _LAST, "        if last_stage:\n            target_chunks_ = target_chunks\n        else:\n            target_chunks_ = write_chunks\n"))
+benign("B14c-stage-subscripts", ["C14"], (OPS, "        read_chunks, int_chunks, write_chunks = stage\n", "        read_chunks, int_chunks, write_chunks = stage[0], stage[1], stage[2]\n"))
+benign("B14d-budget-in-two-steps", ["C14"], (OPS, "    rechunker_max_mem = (spec.allowed_mem - spec.reserved_mem) // total_copies\n", "    usable_mem = spec.allowed_mem - spec.reserved_mem\n    rechunker_max_mem = usable_mem // total_copies\n"))
+benign("B14e-planner-by-if-statement", ["C14"], (OPS, "    plan_func = (\n        multistage_rechunking_plan\n        if allow_irregular\n        else multistage_regular_rechunking_plan\n    )\n", "    if allow_irregular:\n        plan_func = multistage_rechunking_plan\n    else:\n        plan_func = multistage_regular_rechunking_plan\n"))
+benign("B14f-keyword-call-of-copy-constructor", ["C14"], (OPS, "        out = _rechunk(out, copy_chunks, target_chunks, allow_irregular=allow_irregular)\n", "        out = _rechunk(\n            out,\n            copy_chunks=copy_chunks,\n            target_chunks=target_chunks,\n            allow_irregular=allow_irregular,\n        )\n"))
+benign(
+    "B14g-stage-search-while-with-counter",
+    ["C14"],
+    (ALGO, "    for stage_count in range(1, MAX_STAGES):\n\n        stage_chunks = calculate_stage_chunks(read_chunks, write_chunks, stage_count)\n", "    stage_count = 0\n    while stage_count < MAX_STAGES - 1:\n        stage_count += 1\n\n        stage_chunks = calculate_stage_chunks(read_chunks, write_chunks, stage_count)\n"),
+)
+benign("B14h-multspace-guard-flipped", ["C14"], (RECH, "    if start > stop:\n        return list(reversed(multspace(stop, start, num)))\n", "    if stop < start:\n        return list(reversed(multspace(stop, start, num)))\n"))
